@@ -25,7 +25,8 @@ def layouts(draw, big=False, jsrun=False):
 
 
 @st.composite
-def task_specs(draw, layout, light=False, allow_bad=True, jsrun=False, heavy=False):
+def task_specs(draw, layout, light=False, allow_bad=True, jsrun=False, heavy=False, colo=False,
+               gpu_focus=False):
     c, g = layout['cores'], layout['gpus']
     spec = {}
     r = draw(st.integers(0, 40))
@@ -42,7 +43,9 @@ def task_specs(draw, layout, light=False, allow_bad=True, jsrun=False, heavy=Fal
         spec['cores_per_rank'] = c + 1
     else:
         spec['cores_per_rank'] = draw(st.integers(1, c))
-    if g:
+    if g and gpu_focus:
+        spec['gpus_per_rank'] = draw(st.sampled_from([0.25, 0.5, 0.5, 1.0 / 3, 1.0, 0.0]))
+    elif g:
         spec['gpus_per_rank'] = draw(st.sampled_from(GPU_SHARES))
         if jsrun and 0 < spec['gpus_per_rank'] < 1:
             spec['gpus_per_rank'] = 1.0
@@ -61,8 +64,8 @@ def task_specs(draw, layout, light=False, allow_bad=True, jsrun=False, heavy=Fal
                  layout['mem'], layout['mem'] + 1]))
         if not jsrun and draw(st.integers(0, 5)) == 0:
             spec['ranks_per_node'] = draw(st.sampled_from([1, 2]))
-        if draw(st.integers(0, 7)) == 0:
-            spec['colocate'] = draw(st.sampled_from(['a', 'b', 'c']))
+        if draw(st.integers(0, 1 if colo else 7)) == 0:
+            spec['colocate'] = draw(st.sampled_from(['a', 'b', 'c', 0, 1]))   # integer tags (range(n)) are common; 0 is falsy
             spec['exclusive'] = draw(st.booleans())
     if draw(st.integers(0, 3)) == 0:
         spec['priority'] = draw(st.integers(-1, 2))
@@ -71,14 +74,26 @@ def task_specs(draw, layout, light=False, allow_bad=True, jsrun=False, heavy=Fal
 
 @st.composite
 def histories(draw, max_ops=40, big=False, cls='continuous', scattered=None,
-              app=True, light=False, named_env=False, allow_bad=True, heavy=False):
+              app=True, light=False, named_env=False, allow_bad=True, heavy=False, colo=False,
+              gpu_focus=False):
     jsrun = (cls == 'jsrun')
     layout = draw(layouts(big=big, jsrun=jsrun))
     if heavy:
         layout['lfs'] = layout['lfs'] or 1000
         layout['mem'] = layout['mem'] or 1024
         layout['cores'] = max(layout['cores'], 4)
-    spec = task_specs(layout, light=light, allow_bad=allow_bad, jsrun=jsrun, heavy=heavy)
+    if colo:
+        # colocate-focused: several nodes, so that a tag's node and the node the search would
+        # start at differ
+        layout['nodes'] = max(layout['nodes'], 3)
+    if gpu_focus:
+        # GPU-share focused: every node has GPUs, some of them blocked, most tasks ask for shares
+        layout['gpus'] = max(layout['gpus'], 2)
+        if not layout['blocked_gpus']:
+            layout['blocked_gpus'] = draw(st.lists(st.integers(0, layout['gpus'] - 1), min_size=1,
+                                                   max_size=layout['gpus'] - 1, unique=True))
+    spec = task_specs(layout, light=light, allow_bad=allow_bad, jsrun=jsrun, heavy=heavy, colo=colo,
+                      gpu_focus=gpu_focus)
     ops = []
     n_ops = draw(st.integers(3, max_ops))
     for _ in range(n_ops):
@@ -89,8 +104,10 @@ def histories(draw, max_ops=40, big=False, cls='continuous', scattered=None,
                 for s in bulk[:2]:
                     s['named_env'] = 'env1'
             ops.append(['submit', bulk])
-        elif k < 11:
+        elif k < 10:
             ops.append(['finish', draw(st.integers(0, 7))])
+        elif k < 11:
+            ops.append(['finish_bulk', draw(st.integers(0, 7)), draw(st.integers(2, 4))])
         elif k < 13:
             ops.append(['cancel', draw(st.lists(st.integers(0, 40), min_size=1, max_size=3))])
         elif k < 16:
@@ -124,6 +141,8 @@ def normalise(case):
                                          or not op[1]):
                 continue
             if op[0] in ('submit_app',) and (len(op) < 2 or not isinstance(op[1], dict)):
+                continue
+            if op[0] == 'finish_bulk' and len(op) < 3:
                 continue
             if op[0] in ('finish', 'step') and len(op) < 2:
                 continue
